@@ -64,6 +64,42 @@ Theorem C26_chain_deploy_partial : forall sched,
   once_ok (log (run false scD_deps (init scD_reqs) sched)) = true.
 Proof. exact chain_deploy_all_schedules_D. Qed.
 
+(* --- bounded-exhaustive over REQUEST SETS (second round) ---
+   Every multiset of at most 4 requests, each one of  deploy | undeploy | undeploy;deploy | deploy;undeploy,
+   over one eager deployment whose connector deploy/undeploy suspend once (70 request sets), every
+   interleaving: return_after and once.  `_partial`: the size of the request set is bounded (<= 4 requests,
+   <= 2 ops each) and the number of suspensions is fixed; the schedule is universally quantified.
+   (Trying to prove the unbounded statement exposed a counterexample with 4 requests in the code as it was:
+   fixed in /repo by da00385; on the model before that fix this very family fails.) *)
+Theorem C26_return_after_once_bounded_partial : forall reqs sched,
+  In reqs one_fam -> valid false one_deps (init reqs) sched = true ->
+  ra_ok reqs (log (run false one_deps (init reqs) sched)) = true /\
+  once_ok (log (run false one_deps (init reqs) sched)) = true.
+Proof. exact one_fam_all_schedules. Qed.
+
+Example C26_one_fam_ex :
+  In [[ODeploy 0]; [OUndeploy 0]; [OUndeploy 0; ODeploy 0]; [OUndeploy 0; ODeploy 0]] one_fam /\
+  length one_fam = 70.
+Proof. vm_compute. split; [tauto | reflexivity]. Qed.
+
+(* Sequential teardown (no concurrent deploy: the request set is ONE request, deploys first, teardown after) of
+   an eager wraps chain of depth 4: any <= 2 deploys followed by any <= 2 teardown operations (undeploy of any
+   deployment / undeploy_all with its concurrent children), 651 request sets, every interleaving: wrap_order,
+   once and return_after.  `_partial`: bounded request length, fixed chain depth 4. *)
+Theorem C26_sequential_teardown_bounded_partial : forall reqs sched,
+  In reqs ch_fam -> valid false ch_deps (init reqs) sched = true ->
+  wo_ok ch_deps (log (run false ch_deps (init reqs) sched)) = true /\
+  once_ok (log (run false ch_deps (init reqs) sched)) = true /\
+  ra_ok reqs (log (run false ch_deps (init reqs) sched)) = true.
+Proof. exact ch_fam_all_schedules. Qed.
+
+Example C26_ch_fam_ex :
+  In [[ODeploy 3; ODeploy 1; OUndeploy 2; OAll]] ch_fam /\ length ch_fam = 651.
+Proof. vm_compute. split; [tauto | reflexivity]. Qed.
+
+Print Assumptions C26_return_after_once_bounded_partial.
+Print Assumptions C26_sequential_teardown_bounded_partial.
+
 (* --- fail_wakes is false of the current code: d1 wraps d0, d0's deploy fails; the second deploy(d1) is
    blocked for ever (no task is ready, task 1 is not done) *)
 Theorem C26_fail_wakes_refuted :
